@@ -4,161 +4,249 @@ From Verif Require Import Base Cal Param ParamCache ParamCacheSpec.
 Import ListNotations.
 Open Scope Z_scope.
 
-(** * 1. The cache never shows: the machine equals the cache-free reference *)
+(** * 1. The cache never shows: the world with caches answers as the world without *)
 
-Lemma init_ok (t : tree) : cache_ok (init t).
+Lemma init_ok (t : tree) : world_ok (init t).
 Proof.
-  unfold cache_ok, init; cbn. repeat split; try lia; intros; discriminate.
+  unfold world_ok, init; cbn. constructor; [|constructor].
+  unfold cache_ok; cbn. repeat split; try lia; intros; discriminate.
 Qed.
 
-Lemma validate_ok (s : sys) :
-  cache_ok s ->
-  cache_ok (validate s) /\ s_cached (validate s) = Some (s_rid s) /\
-  erase (validate s) = erase s /\ s_root (validate s) = s_root s /\ s_rid (validate s) = s_rid s.
+Lemma cache_ok_mono (n n' : nat) (s : sys) : (n <= n')%nat -> cache_ok n s -> cache_ok n' s.
+Proof.
+  intros Hle (H1 & H2 & H3). repeat split; [lia | | exact H3].
+  intros k Hk. specialize (H2 k Hk). lia.
+Qed.
+
+Lemma validate_ok (n : nat) (s : sys) :
+  cache_ok n s ->
+  cache_ok n (validate s) /\ s_cached (validate s) = Some (s_rid s) /\
+  same_trees (validate s) s.
 Proof.
   intros (H1 & H2 & H3). unfold validate.
-  destruct (s_cached s) as [k|] eqn:Ek.
-  - destruct (Nat.eqb k (s_rid s)) eqn:E.
-    + apply Nat.eqb_eq in E. subst k. cbv iota. repeat split; try rewrite Ek; auto.
-    + unfold cache_ok, set_cache, erase; cbn. repeat split; auto.
+  destruct s as [base root rid cache cached]. cbn in *.
+  destruct cached as [k|].
+  - destruct (Nat.eqb k rid) eqn:E.
+    + apply Nat.eqb_eq in E. subst k. unfold cache_ok, same_trees; cbn. repeat split; auto.
+    + unfold cache_ok, same_trees, set_cache; cbn. repeat split; auto.
       * intros k' Hk. inversion Hk; subst. exact H1.
       * intros _ i ov Hx. discriminate.
-  - unfold cache_ok, set_cache, erase; cbn. repeat split; auto.
+  - unfold cache_ok, same_trees, set_cache; cbn. repeat split; auto.
     + intros k' Hk. inversion Hk; subst. exact H1.
     + intros _ i ov Hx. discriminate.
 Qed.
 
-(** get_parameters_at_instant returns the view of the CURRENT tree, whatever was read
-    before, and keeps the invariant. *)
-Lemma get_parameters_at_instant_current (s : sys) (i : Z) :
-  cache_ok s ->
+(** get_parameters_at_instant returns the view of the system's CURRENT tree, whatever was
+    read before, and keeps the invariant. *)
+Lemma get_parameters_at_instant_current (n : nat) (s : sys) (i : Z) :
+  cache_ok n s ->
   let '(s', ov) := get_parameters_at_instant Fixed s i in
-  ov = at_instant (s_root s) i /\ cache_ok s' /\ erase s' = erase s.
+  ov = at_instant (s_root s) i /\ cache_ok n s' /\ same_trees s' s.
 Proof.
   intros Hok. unfold get_parameters_at_instant.
-  destruct (validate_ok s Hok) as (Hv & Hc & He & Hr & Hid).
+  destruct (validate_ok n s Hok) as (Hv & Hc & (Hb & Hr & Hid)).
   destruct Hv as (V1 & V2 & V3).
   destruct (assoc i (s_cache (validate s))) as [[v|]|] eqn:Ea.
   - split; [|split].
     + rewrite <- Hr. apply V3 with (i := i); auto. rewrite Hc, Hid. reflexivity.
     + repeat split; auto.
-    + exact He.
-  - rewrite Hr. split; [reflexivity|]. split; [|exact He].
+    + repeat split; auto.
+  - rewrite Hr. split; [reflexivity|]. split; [|repeat split; auto].
     unfold cache_ok, set_cache; cbn. repeat split; auto.
     intros Hst j ov. destruct (i =? j) eqn:Eij.
     + apply Z.eqb_eq in Eij. subst j. intros Hx. inversion Hx. rewrite Hr. reflexivity.
     + intros Hx. apply V3; auto.
-  - rewrite Hr. split; [reflexivity|]. split; [|exact He].
+  - rewrite Hr. split; [reflexivity|]. split; [|repeat split; auto].
     unfold cache_ok, set_cache; cbn. repeat split; auto.
     intros Hst j ov. destruct (i =? j) eqn:Eij.
     + apply Z.eqb_eq in Eij. subst j. intros Hx. inversion Hx. rewrite Hr. reflexivity.
     + intros Hx. apply V3; auto.
 Qed.
 
-Lemma fresh_root_ok (s : sys) (t : tree) (clear : bool) :
-  cache_ok s -> cache_ok (with_root Fixed s t clear).
+(** a read on one system: same answer as without cache *)
+Lemma read_sys_ok (n : nat) (s s0 : sys) (r : route) (p : path) (i : Z) (t : tail) :
+  cache_ok n s -> same_trees s s0 ->
+  snd (read_sys Fixed s r p i t) = read_spec (s_root s) r p i t /\
+  snd (read_sys NoCache s0 r p i t) = read_spec (s_root s) r p i t /\
+  cache_ok n (fst (read_sys Fixed s r p i t)) /\
+  same_trees (fst (read_sys Fixed s r p i t)) (fst (read_sys NoCache s0 r p i t)).
 Proof.
-  intros (H1 & H2 & H3). unfold cache_ok, with_root; cbn. repeat split.
+  intros Hok Hst. pose proof Hst as (Hb & Hr & Hid).
+  pose proof (get_parameters_at_instant_current n s i Hok) as Hg.
+  assert (T : forall a b c : sys, same_trees a b -> same_trees b c -> same_trees a c).
+  { intros a b c (A1 & A2 & A3) (B1 & B2 & B3). repeat split; congruence. }
+  unfold read_sys, read_spec.
+  change (get_parameters_at_instant NoCache s0 i) with (s0, at_instant (s_root s0) i).
+  destruct (get_parameters_at_instant Fixed s i) as [s' ov]. destruct Hg as (-> & Hok' & He).
+  rewrite <- Hr.
+  destruct r as [ | | [|]]; cbn [fst snd];
+    (split; [reflexivity | split; [reflexivity | split]]);
+    first [exact Hok' | exact Hok | exact (T _ _ _ He Hst) | exact Hst].
+Qed.
+
+Lemma new_root_ok (n : nat) (s : sys) (t : tree) (clear : bool) :
+  cache_ok n s -> cache_ok (S n) (new_root Fixed s t n clear).
+Proof.
+  intros (H1 & H2 & H3). unfold cache_ok, new_root; cbn. repeat split.
   - lia.
   - intros k Hk. specialize (H2 k Hk). lia.
   - intros Hk. specialize (H2 _ Hk). lia.
 Qed.
 
-Lemma step_ok (s : sys) (o : op) :
-  cache_ok s -> documented o = true ->
-  cache_ok (fst (step Fixed s o)) /\
-  ref_step (erase s) o = (erase (fst (step Fixed s o)), snd (step Fixed s o)).
+(** list plumbing *)
+Lemma Forall2_nth {A B} (R : A -> B -> Prop) (l : list A) (l' : list B) (k : nat) :
+  Forall2 R l l' ->
+  match nth_error l k, nth_error l' k with
+  | Some x, Some y => R x y
+  | None, None => True
+  | _, _ => False
+  end.
 Proof.
-  intros Hok Hd. destruct o as [r p i t | t | | ups rn | p u]; try discriminate.
+  intros H. revert k. induction H as [|x y l l' Hxy _ IH]; intros [|k]; cbn; auto. apply IH.
+Qed.
+
+Lemma Forall2_replace {A B} (R : A -> B -> Prop) (l : list A) (l' : list B) (k : nat) x y :
+  Forall2 R l l' -> R x y -> Forall2 R (replace k x l) (replace k y l').
+Proof.
+  intros H Hxy. revert k. induction H as [|a b l l' Hab Hl IH]; intros [|k]; cbn; constructor; auto.
+Qed.
+
+Lemma Forall_replace {A} (P : A -> Prop) (l : list A) (k : nat) x :
+  Forall P l -> P x -> Forall P (replace k x l).
+Proof.
+  intros H Hx. revert k. induction H as [|a l Ha Hl IH]; intros [|k]; cbn; constructor; auto.
+Qed.
+
+Lemma Forall_nth {A} (P : A -> Prop) (l : list A) (k : nat) x :
+  Forall P l -> nth_error l k = Some x -> P x.
+Proof. intros H Hk. eapply Forall_forall; eauto. eapply nth_error_In; eauto. Qed.
+
+Lemma Forall_mono_ok (n n' : nat) (l : list sys) :
+  (n <= n')%nat -> Forall (cache_ok n) l -> Forall (cache_ok n') l.
+Proof. intros Hle H. eapply Forall_impl; [|exact H]. intros s. apply cache_ok_mono; exact Hle. Qed.
+
+(** One operation: the world with caches and the world without give the same answer and
+    stay the same world up to caches; the invariant is kept. *)
+Lemma wstep_ok (w w0 : world) (o : nat * op) :
+  world_ok w -> same_world w w0 -> documented o = true ->
+  snd (wstep Fixed w o) = snd (wstep NoCache w0 o) /\
+  world_ok (fst (wstep Fixed w o)) /\
+  same_world (fst (wstep Fixed w o)) (fst (wstep NoCache w0 o)).
+Proof.
+  intros Hok [Hn Hs] Hd. destruct o as [k o]. unfold wstep.
+  pose proof (Forall2_nth _ _ _ k Hs) as Hk.
+  destruct (nth_error (w_sys w) k) as [s|] eqn:Es; destruct (nth_error (w_sys w0) k) as [s0|] eqn:Es0;
+    try contradiction; [|cbn; repeat split; auto].
+  pose proof (Forall_nth _ _ _ _ Hok Es) as Hsk.
+  destruct o as [r p i t | t | | ups rn | p u]; try discriminate.
   - (* Read *)
-    pose proof (get_parameters_at_instant_current s i Hok) as Hg.
-    destruct r as [ | | [|]]; cbn [step].
-    + destruct (get_parameters_at_instant Fixed s i) as [s' ov]. destruct Hg as (-> & Hok' & He).
-      cbn. split; auto. rewrite He. unfold erase at 1. cbn. reflexivity.
-    + cbn. split; auto.
-    + destruct (get_parameters_at_instant Fixed s i) as [s' ov]. destruct Hg as (-> & Hok' & He).
-      cbn. split; auto. rewrite He. unfold erase at 1. cbn. reflexivity.
-    + destruct (get_parameters_at_instant Fixed s i) as [s' ov]. destruct Hg as (-> & Hok' & He).
-      cbn. split; auto. rewrite He. unfold erase at 1. cbn. reflexivity.
+    destruct (read_sys_ok (w_next w) s s0 r p i t Hsk Hk) as (A1 & A2 & A3 & A4).
+    destruct (read_sys Fixed s r p i t) as [s' a]. destruct (read_sys NoCache s0 r p i t) as [s0' a0].
+    cbn [fst snd] in *. split; [congruence|]. split.
+    + apply Forall_replace; assumption.
+    + split; [exact Hn|]. apply Forall2_replace; assumption.
   - (* Load *)
-    cbn [step fst snd]. split; [apply fresh_root_ok; auto|]. reflexivity.
-  - (* BeginReform *)
-    cbn [step fst snd]. split.
-    + destruct Hok as (H1 & H2 & H3). unfold cache_ok; cbn. repeat split; auto; intros; discriminate.
-    + reflexivity.
+    cbn [fst snd]. split; [reflexivity|]. split.
+    + unfold world_ok; cbn [w_sys w_next]. apply Forall_replace.
+      * apply (Forall_mono_ok (w_next w)); [lia | exact Hok].
+      * apply new_root_ok; exact Hsk.
+    + split; [cbn; congruence|]. cbn [w_sys]. apply Forall2_replace; [exact Hs|].
+      destruct Hk as (K1 & K2 & K3). unfold same_trees, new_root; cbn. repeat split; congruence.
+  - (* NewReform *)
+    cbn [fst snd]. split; [reflexivity|]. split.
+    + unfold world_ok; cbn [w_sys w_next]. apply Forall_app. split; [exact Hok|]. constructor; [|constructor].
+      destruct Hsk as (H1 & H2 & H3). unfold cache_ok; cbn. repeat split; auto; intros; discriminate.
+    + split; [exact Hn|]. cbn [w_sys]. apply Forall2_app; [exact Hs|]. constructor; [|constructor].
+      destruct Hk as (K1 & K2 & K3). unfold same_trees; cbn. repeat split; congruence.
   - (* Modify *)
-    cbn [step]. unfold erase at 1. cbn [ref_step].
-    destruct (s_base s) as [[k b]|] eqn:Eb.
-    + destruct (apply_modifier b ups) as [t'|e] eqn:Em.
-      * destruct rn; cbn [fst snd].
-        -- split; [apply fresh_root_ok; auto|]. unfold erase, with_root; cbn. rewrite Eb. reflexivity.
-        -- split; auto. unfold erase. rewrite Eb. reflexivity.
-      * cbn [fst snd]. split; auto. unfold erase. rewrite Eb. reflexivity.
-    + cbn [fst snd]. split; auto. unfold erase. rewrite Eb. reflexivity.
+    destruct Hk as (K1 & K2 & K3). rewrite <- K1.
+    destruct (s_base s) as [b|] eqn:Eb; [|cbn; repeat split; auto].
+    pose proof (Forall2_nth _ _ _ b Hs) as Hb.
+    destruct (nth_error (w_sys w) b) as [sb|]; destruct (nth_error (w_sys w0) b) as [sb0|];
+      try contradiction; [|cbn; repeat split; auto].
+    destruct Hb as (_ & B2 & _). rewrite <- B2.
+    destruct (apply_modifier (s_root sb) ups) as [t'|e]; [|cbn; repeat split; auto].
+    destruct rn; [|cbn; repeat split; auto].
+    cbn [fst snd]. split; [reflexivity|]. split.
+    + unfold world_ok; cbn [w_sys w_next]. apply Forall_replace.
+      * apply (Forall_mono_ok (w_next w)); [lia | exact Hok].
+      * apply new_root_ok; exact Hsk.
+    + split; [cbn; congruence|]. cbn [w_sys]. apply Forall2_replace; [exact Hs|].
+      unfold same_trees, new_root; cbn. repeat split; congruence.
 Qed.
 
-(** Every sequence of documented operations, started in any state that satisfies the
-    invariant (in particular a new system), answers as the cache-free reference does. *)
-Lemma views_agree_gen (ops : list op) : forall s,
-  cache_ok s -> forallb documented ops = true ->
-  run Fixed s ops = ref_run (erase s) ops.
+(** Every sequence of documented operations on any systems of the world, started in any
+    world that satisfies the invariant (in particular a new system), answers as the
+    cache-free world does. *)
+Lemma views_agree_gen (ops : list (nat * op)) : forall w w0,
+  world_ok w -> same_world w w0 -> forallb documented ops = true ->
+  wrun Fixed w ops = wrun NoCache w0 ops.
 Proof.
-  induction ops as [|o ops IH]; intros s Hok Hd; [reflexivity|].
+  induction ops as [|o ops IH]; intros w w0 Hok Hs Hd; [reflexivity|].
   cbn [forallb] in Hd. apply andb_true_iff in Hd. destruct Hd as [Ho Hd].
-  destruct (step_ok s o Hok Ho) as [Hok' Hr].
-  cbn [run ref_run]. rewrite Hr. destruct (step Fixed s o) as [s' a]. cbn [fst snd] in *.
-  f_equal. apply IH; auto.
+  destruct (wstep_ok w w0 o Hok Hs Ho) as (Ha & Hok' & Hs').
+  cbn [wrun]. destruct (wstep Fixed w o) as [w' a]. destruct (wstep NoCache w0 o) as [w0' a0].
+  cbn [fst snd] in *. subst a0. f_equal. apply IH; auto.
 Qed.
 
-Lemma views_agree_init (t0 : tree) (ops : list op) :
+Lemma same_world_refl (w : world) : same_world w w.
+Proof.
+  split; [reflexivity|]. induction (w_sys w); constructor; auto. repeat split.
+Qed.
+
+Lemma views_agree_init (t0 : tree) (ops : list (nat * op)) :
   forallb documented ops = true ->
-  run Fixed (init t0) ops = ref_run (None, t0) ops.
-Proof. intros H. apply (views_agree_gen ops (init t0) (init_ok t0) H). Qed.
+  wrun Fixed (init t0) ops = wrun NoCache (init t0) ops.
+Proof. intros H. apply views_agree_gen; [apply init_ok | apply same_world_refl | exact H]. Qed.
 
-Lemma reachable_ok (ops : list op) : forall s,
-  cache_ok s -> forallb documented ops = true -> cache_ok (exec Fixed s ops).
+Lemma reachable_ok (ops : list (nat * op)) : forall w,
+  world_ok w -> forallb documented ops = true -> world_ok (wexec Fixed w ops).
 Proof.
-  induction ops as [|o ops IH]; intros s Hok Hd; [exact Hok|].
+  induction ops as [|o ops IH]; intros w Hok Hd; [exact Hok|].
   cbn [forallb] in Hd. apply andb_true_iff in Hd. destruct Hd as [Ho Hd].
-  cbn [exec fold_left]. apply IH; auto. apply step_ok; auto.
+  cbn [wexec fold_left]. apply IH; auto.
+  apply (wstep_ok w w o Hok (same_world_refl w) Ho).
 Qed.
 
-Lemma reachable_ok_init (t0 : tree) (ops : list op) :
-  forallb documented ops = true -> cache_ok (exec Fixed (init t0) ops).
+Lemma reachable_ok_init (t0 : tree) (ops : list (nat * op)) :
+  forallb documented ops = true -> world_ok (wexec Fixed (init t0) ops).
 Proof. intros H. exact (reachable_ok ops (init t0) (init_ok t0) H). Qed.
 
-(** At any reachable state, a read through the system view, a formula (traced or not)
-    answers from [at_instant (current root)]. *)
-Lemma read_current (t0 : tree) (ops : list op) (r : route) (p : path) (i : Z) (t : tail) :
+(** In any reachable world, a read by any route on ANY of its systems answers from
+    [at_instant] of the tree THAT system holds. *)
+Lemma read_current (t0 : tree) (ops : list (nat * op)) (k : nat) (s : sys)
+      (r : route) (p : path) (i : Z) (t : tail) :
   forallb documented ops = true ->
-  let s := exec Fixed (init t0) ops in
-  snd (step Fixed s (Read r p i t)) = read_spec (s_root s) r p i t.
+  let w := wexec Fixed (init t0) ops in
+  nth_error (w_sys w) k = Some s ->
+  snd (wstep Fixed w (k, Read r p i t)) = read_spec (s_root s) r p i t.
 Proof.
-  intros Hd s.
-  assert (Hok : cache_ok s) by (apply reachable_ok; [apply init_ok | exact Hd]).
-  destruct (step_ok s (Read r p i t) Hok eq_refl) as [_ Hr].
-  apply (f_equal snd) in Hr. unfold erase in Hr. cbn [ref_step snd] in Hr. symmetry. exact Hr.
+  intros Hd w Hk.
+  assert (Hok : world_ok w) by (apply reachable_ok_init; exact Hd).
+  pose proof (Forall_nth _ _ _ _ Hok Hk) as Hsk.
+  destruct (read_sys_ok (w_next w) s s r p i t Hsk) as (A1 & _); [repeat split|].
+  unfold wstep. rewrite Hk. destruct (read_sys Fixed s r p i t) as [s' a]. exact A1.
 Qed.
 
 (** * 2. The machine before the fix *)
 
 Definition lru_tree1 : tree := TNode [("a"%string, TParam [(0, Some 1)])].
 Definition lru_tree2 : tree := TNode [("a"%string, TParam [(0, Some 3)])].
-Definition lru_witness : list op :=
-  [Read RSystem ["a"%string] 10 TWhole; Load lru_tree2; Read RSystem ["a"%string] 10 TWhole].
+Definition lru_witness : list (nat * op) :=
+  [(O, Read RSystem ["a"%string] 10 TWhole); (O, Load lru_tree2); (O, Read RSystem ["a"%string] 10 TWhole)].
 
 Lemma lru_witness_stale :
-  run Lru (init lru_tree1) lru_witness =
+  wrun Lru (init lru_tree1) lru_witness =
     [(Ok (RView (VValue 1)), []); (Ok RNone, []); (Ok (RView (VValue 1)), [])] /\
-  ref_run (None, lru_tree1) lru_witness =
+  wrun NoCache (init lru_tree1) lru_witness =
     [(Ok (RView (VValue 1)), []); (Ok RNone, []); (Ok (RView (VValue 3)), [])] /\
   read_direct lru_tree2 ["a"%string] 10 TWhole = Ok (RView (VValue 3)).
 Proof. vm_compute. repeat split. Qed.
 
 Lemma views_agree_refuted_lru_lemma :
-  exists (t0 : tree) (ops : list op),
+  exists (t0 : tree) (ops : list (nat * op)),
     List.length ops = 3%nat /\ forallb documented ops = true /\
-    run Lru (init t0) ops <> ref_run (None, t0) ops.
+    wrun Lru (init t0) ops <> wrun NoCache (init t0) ops.
 Proof.
   exists lru_tree1, lru_witness. split; [reflexivity|]. split; [reflexivity|].
   destruct lru_witness_stale as (H1 & H2 & _). rewrite H1, H2. intros H. discriminate H.
@@ -188,12 +276,13 @@ Proof.
   - reflexivity.
 Qed.
 
-Lemma tracing_transparent_lemma (m : mode) (s : sys) (p : path) (i : Z) (t : tail) :
-  fst (step m s (Read (RFormula true) p i t)) = fst (step m s (Read (RFormula false) p i t)) /\
-  fst (snd (step m s (Read (RFormula true) p i t))) = fst (snd (step m s (Read (RFormula false) p i t))) /\
-  fst (snd (step m s (Read (RFormula false) p i t))) = fst (snd (step m s (Read RSystem p i t))).
+Lemma tracing_transparent_lemma (m : mode) (w : world) (k : nat) (p : path) (i : Z) (t : tail) :
+  fst (wstep m w (k, Read (RFormula true) p i t)) = fst (wstep m w (k, Read (RFormula false) p i t)) /\
+  fst (snd (wstep m w (k, Read (RFormula true) p i t))) = fst (snd (wstep m w (k, Read (RFormula false) p i t))) /\
+  fst (snd (wstep m w (k, Read (RFormula false) p i t))) = fst (snd (wstep m w (k, Read RSystem p i t))).
 Proof.
-  cbn [step]. destruct (get_parameters_at_instant m s i) as [s' ov]. cbn [fst snd].
+  unfold wstep. destruct (nth_error (w_sys w) k) as [s|]; [|repeat split].
+  unfold read_sys. destruct (get_parameters_at_instant m s i) as [s' ov]. cbn [fst snd].
   split; [reflexivity|]. split; [apply read_traced_transparent | reflexivity].
 Qed.
 
@@ -355,44 +444,54 @@ Proof.
     eapply IH; [eapply tree_update_wf; eauto | exact H].
 Qed.
 
-Lemma gpai_frame (m : mode) (s : sys) (i : Z) :
-  s_root (fst (get_parameters_at_instant m s i)) = s_root s /\
-  s_base (fst (get_parameters_at_instant m s i)) = s_base s.
+Lemma gpai_root (m : mode) (s : sys) (i : Z) :
+  s_root (fst (get_parameters_at_instant m s i)) = s_root s.
 Proof.
-  assert (V : s_root (validate s) = s_root s /\ s_base (validate s) = s_base s).
-  { unfold validate. destruct (s_cached s) as [k|]; [destruct (Nat.eqb k (s_rid s))|]; cbn; auto. }
-  destruct V as [V1 V2].
+  assert (V : s_root (validate s) = s_root s).
+  { unfold validate. destruct (s_cached s) as [k|]; [destruct (Nat.eqb k (s_rid s))|]; reflexivity. }
   unfold get_parameters_at_instant. destruct m.
   - destruct (assoc i (s_cache (validate s))) as [[v|]|]; cbn; auto.
   - destruct (assoc i (s_cache s)) as [v|]; cbn; auto.
+  - reflexivity.
 Qed.
 
-Lemma step_wf (m : mode) (s : sys) (o : op) :
-  wf_sys s -> wf_op o -> wf_sys (fst (step m s o)).
+Lemma read_sys_root (m : mode) (s : sys) r p i t : s_root (fst (read_sys m s r p i t)) = s_root s.
 Proof.
-  intros [Hr Hb] Ho. destruct o as [r p i t | t | | ups rn | p u]; cbn [step].
-  - destruct (gpai_frame m s i) as [G1 G2].
-    destruct r as [ | | [|]]; try (cbn; split; assumption);
-      destruct (get_parameters_at_instant m s i) as [s' ov]; cbn [fst] in *;
-      unfold wf_sys; rewrite G1, G2; split; assumption.
-  - cbn. split; auto.
-  - cbn. split; auto.
-  - destruct s as [base root rid next cache cached]. cbn in *.
-    destruct base as [[k b]|]; [|cbn; split; auto].
-    destruct (apply_modifier b ups) as [t'|] eqn:Em; [|cbn; split; auto].
-    destruct rn; cbn; [|split; auto].
-    split; [eapply apply_modifier_wf; eauto | auto].
-  - destruct s as [base root rid next cache cached]. cbn in *.
-    destruct (tree_update root p u) as [t'|] eqn:Eu; [|cbn; split; auto].
-    pose proof (tree_update_wf p _ u t' Hr Eu) as Hw. cbn. split; auto.
-    destruct base as [[k b]|]; auto. destruct (Nat.eqb k rid); auto.
+  pose proof (gpai_root m s i) as G. unfold read_sys.
+  destruct r as [ | | [|]]; try reflexivity; destruct (get_parameters_at_instant m s i); exact G.
 Qed.
 
-Lemma exec_wf (m : mode) (ops : list op) : forall s,
-  wf_sys s -> Forall wf_op ops -> wf_sys (exec m s ops).
+Lemma wstep_wf (m : mode) (w : world) (o : nat * op) :
+  wf_world w -> wf_op o -> wf_world (fst (wstep m w o)).
 Proof.
-  induction ops as [|o ops IH]; intros s Hs Ho; [exact Hs|].
-  inversion Ho; subst. cbn [exec fold_left]. apply IH; auto. apply step_wf; auto.
+  intros Hw Ho. destruct o as [k o]. unfold wstep.
+  destruct (nth_error (w_sys w) k) as [s|] eqn:Es; [|exact Hw].
+  pose proof (Forall_nth _ _ _ _ Hw Es) as Hs. cbn beta in Hs.
+  destruct o as [r p i t | t | | ups rn | p u].
+  - pose proof (read_sys_root m s r p i t) as R. destruct (read_sys m s r p i t) as [s' a].
+    cbn [fst] in *. unfold wf_world; cbn [w_sys]. apply Forall_replace; [exact Hw|]. rewrite R. exact Hs.
+  - cbn [fst]. unfold wf_world; cbn [w_sys]. apply Forall_replace; [exact Hw | exact Ho].
+  - cbn [fst]. unfold wf_world; cbn [w_sys]. apply Forall_app. split; [exact Hw|]. constructor; [exact Hs | constructor].
+  - destruct (s_base s) as [b|]; [|exact Hw].
+    destruct (nth_error (w_sys w) b) as [sb|] eqn:Eb; [|exact Hw].
+    pose proof (Forall_nth _ _ _ _ Hw Eb) as Hb. cbn beta in Hb.
+    destruct (apply_modifier (s_root sb) ups) as [t'|] eqn:Em; [|exact Hw].
+    destruct rn; [|exact Hw].
+    cbn [fst]. unfold wf_world; cbn [w_sys]. apply Forall_replace; [exact Hw|].
+    cbn. eapply apply_modifier_wf; eauto.
+  - destruct (tree_update (s_root s) p u) as [t'|] eqn:Eu; [|exact Hw].
+    pose proof (tree_update_wf p _ u t' Hs Eu) as Ht.
+    cbn [fst]. unfold wf_world; cbn [w_sys]. apply Forall_forall. intros x Hx.
+    apply in_map_iff in Hx. destruct Hx as (y & <- & Hy).
+    destruct (Nat.eqb (s_rid y) (s_rid s)); [exact Ht|].
+    eapply Forall_forall in Hw; eauto.
+Qed.
+
+Lemma wexec_wf (m : mode) (ops : list (nat * op)) : forall w,
+  wf_world w -> Forall wf_op ops -> wf_world (wexec m w ops).
+Proof.
+  induction ops as [|o ops IH]; intros w Hw Ho; [exact Hw|].
+  inversion Ho; subst. cbn [wexec fold_left]. apply IH; auto. apply wstep_wf; auto.
 Qed.
 
 (** * 5. Fancy indexing is element-wise *)
